@@ -3,3 +3,8 @@ check('C14',
   'Every reachable state of the real cachedRoutes for 1..4 keys x 2 values x capacities -1..4 is visited and every operation is applied in it and compared with a 30-line reference LRU (result, successor state, size invariants); the router clause is explored over all request histories up to the cache fix-point. Exhaustive within those bounds, which cover every branch of the 110-line cache.',
   'Bounded: at most 5 keys and capacity 5 (thorough). States are read through the verif hook VerifSnapshot; successors are built by replaying the shortest history on a fresh cache. Concurrency of the cache is decided under C03, not here.',
   'DESIGN.md 5 C14')
+check('C01',
+  'bounded exhaustive enumeration (complete product of route tables x methods x paths) of the real router against a reference resolver',
+  'Every ordered table of up to 3 patterns (4 over a core pool) drawn from a 25-pattern pool that contains colliding inputs for every indexing shortcut of the router, with every method-set assignment, is registered on a real router and every one of 259 paths x 3-4 methods is resolved through Router.Match and ServeHTTP and compared with an independent reference resolver (back-tracking matcher + the documented tier rule). Nothing is sampled; the enumeration is complete within the stated alphabets.',
+  'Small-scope: <=4 routes, <=3 path segments over 6 segment strings. The reference matcher and resolver (mc/refmodel/route.go) are trusted; they share no code with rux and are sanity-tested against hand-computed cases.',
+  'DESIGN.md 5 C01')
